@@ -3,7 +3,8 @@
  "name": "rsz_btm_same_desc",
  "props": ["C08", "C20"],
  "level": "P",
- "tier": "wip",
+ "tier": "quick",
+ "tier_after_hooks": "quick",
  "harness": "h_blocks_to_move",
  "replace": ["mark_table_blocks", "reserve_sparse_super2_last_group", "mark_fs_metablock"],
  "includes": ["resize"],
@@ -13,6 +14,7 @@
  "unwind_reason": "all nine loops of blocks_to_move are cut by in-place loop contracts (VERIF_INV_BTM_*: invariant + decreases); the bound serves the harness' initialisation loops over the 6 ghost sets and the DFCC library loops over assigns clauses of up to 9 targets (a smaller bound silently cuts those paths: the REACH canaries guard against that)",
  "cbmc_flags": ["--object-bits", "12"],
  "backend": "cadical",
+ "timeout": 900,
  "functions": ["resize/resize2fs.c:blocks_to_move"],
  "assumes": ["big translation unit: no contract is enforced; the real static function is called directly, the statement is made by harness CHECKs and by the PRECONDITIONS of the replaced static callees (call-site obligations) over the ghost monitor of rsz_common.h: bitmaps observed at ONE arbitrary ghost block, descriptors at ONE arbitrary ghost group",
              "mark_table_blocks, reserve_sparse_super2_last_group, mark_fs_metablock are replaced by contracts: mark_table_blocks(old_fs, meta) makes the ghost block a member of meta exactly when it is metadata of the old geometry (an input); reserve_sparse_super2_last_group does what unit rsz_ss2_reserve proves (blocks of the new last group's backup run, an input predicate, become reserved and in use; nothing else is reserved or queued for moving; it may fail); mark_fs_metablock(blk) reserves blk, marks it in use, may queue it for moving only when a file uses it, may zero table locations",
@@ -28,7 +30,8 @@
  "name": "rsz_btm_shrink_desc",
  "props": ["C08", "C20"],
  "level": "P",
- "tier": "wip",
+ "tier": "thorough",
+ "tier_after_hooks": "thorough",
  "harness": "h_blocks_to_move",
  "replace": ["mark_table_blocks", "reserve_sparse_super2_last_group", "mark_fs_metablock"],
  "includes": ["resize"],
@@ -38,6 +41,7 @@
  "unwind_reason": "all nine loops of blocks_to_move are cut by in-place loop contracts (VERIF_INV_BTM_*: invariant + decreases); the bound serves the harness' initialisation loops over the 6 ghost sets and the DFCC library loops over assigns clauses of up to 9 targets (a smaller bound silently cuts those paths: the REACH canaries guard against that)",
  "cbmc_flags": ["--object-bits", "12"],
  "backend": "cadical",
+ "timeout": 900,
  "functions": ["resize/resize2fs.c:blocks_to_move"],
  "assumes": ["big translation unit: no contract is enforced; the real static function is called directly, the statement is made by harness CHECKs and by the PRECONDITIONS of the replaced static callees (call-site obligations) over the ghost monitor of rsz_common.h: bitmaps observed at ONE arbitrary ghost block, descriptors at ONE arbitrary ghost group",
              "mark_table_blocks, reserve_sparse_super2_last_group, mark_fs_metablock are replaced by contracts: mark_table_blocks(old_fs, meta) makes the ghost block a member of meta exactly when it is metadata of the old geometry (an input); reserve_sparse_super2_last_group does what unit rsz_ss2_reserve proves (blocks of the new last group's backup run, an input predicate, become reserved and in use; nothing else is reserved or queued for moving; it may fail); mark_fs_metablock(blk) reserves blk, marks it in use, may queue it for moving only when a file uses it, may zero table locations",
@@ -53,7 +57,8 @@
  "name": "rsz_btm_grow_desc",
  "props": ["C08", "C20"],
  "level": "P",
- "tier": "wip",
+ "tier": "thorough",
+ "tier_after_hooks": "thorough",
  "harness": "h_blocks_to_move",
  "replace": ["mark_table_blocks", "reserve_sparse_super2_last_group", "mark_fs_metablock"],
  "includes": ["resize"],
@@ -63,6 +68,7 @@
  "unwind_reason": "all nine loops of blocks_to_move are cut by in-place loop contracts (VERIF_INV_BTM_*: invariant + decreases); the bound serves the harness' initialisation loops over the 6 ghost sets and the DFCC library loops over assigns clauses of up to 9 targets (a smaller bound silently cuts those paths: the REACH canaries guard against that)",
  "cbmc_flags": ["--object-bits", "12"],
  "backend": "cadical",
+ "timeout": 900,
  "functions": ["resize/resize2fs.c:blocks_to_move"],
  "assumes": ["big translation unit: no contract is enforced; the real static function is called directly, the statement is made by harness CHECKs and by the PRECONDITIONS of the replaced static callees (call-site obligations) over the ghost monitor of rsz_common.h: bitmaps observed at ONE arbitrary ghost block, descriptors at ONE arbitrary ghost group",
              "mark_table_blocks, reserve_sparse_super2_last_group, mark_fs_metablock are replaced by contracts: mark_table_blocks(old_fs, meta) makes the ghost block a member of meta exactly when it is metadata of the old geometry (an input); reserve_sparse_super2_last_group does what unit rsz_ss2_reserve proves (blocks of the new last group's backup run, an input predicate, become reserved and in use; nothing else is reserved or queued for moving; it may fail); mark_fs_metablock(blk) reserves blk, marks it in use, may queue it for moving only when a file uses it, may zero table locations",
